@@ -80,11 +80,13 @@ Section Stream.
   Qed.
 
   Lemma ybuf_of_prefix c xs more F yr :
-    F * cS K c + yr + off c <= zlen xs ->
+    yr <= 0 \/ F * cS K c + yr + off c <= zlen xs ->
     ybuf_of c (xs ++ more) F yr = ybuf_of c xs F yr.
   Proof.
     intros H. unfold ybuf_of. apply map_ext. intros tp. f_equal.
-    unfold pendf. apply map_zrange_ext. intros i Hi. apply ys_prefix. lia.
+    unfold pendf. destruct H as [H | H].
+    - now rewrite zrange_nonpos by lia.
+    - apply map_zrange_ext. intros i Hi. apply ys_prefix. lia.
   Qed.
 
   (* ---- _fill_y_buf appends the next piece of the stream ---- *)
